@@ -22,13 +22,11 @@
       validate fail alike; what evaluates also validates — labrea's Cached.validate answers
       "valid" on a hit without validating);
     - cached expressions are in [frag]; around and between cache sites every constructor except
-      Map, Template nodes, AllOptions and effects is allowed ([scoh]). *)
+      Map, Template nodes and AllOptions is allowed ([scoh]). *)
 From Coq Require Import List NArith ZArith Bool Lia.
 Import ListNotations.
-From LV Require Import Model.Base Model.Template Model.Eval Model.Derived Model.EvalRun
-  Proofs.BaseProofs Proofs.EvalProofs Proofs.EvalInd Proofs.EvalUnfold Proofs.FrameProofs
-  Proofs.FrameTheorem Proofs.RestrictProofs Proofs.SufficientProofs Proofs.FingerprintProofs
-  Proofs.CleanProofs Proofs.KeysPresent Proofs.TraceProofs.
+From LV Require Import Model.Base Model.Template Model.Eval Model.Derived Model.EvalRun Proofs.BaseProofs Proofs.EvalProofs Proofs.EvalInd Proofs.EvalUnfold Proofs.FingerprintProofs Proofs.TraceProofs.
+From LV Require Import Proofs.FrameProofs Proofs.FrameTheorem Proofs.RestrictProofs Proofs.SufficientProofs Proofs.CleanProofs Proofs.KeysPresent.
 
 (** ** The memo store: find after store *)
 Lemma tok_eqb_true a b : tok_eqb a b = true -> a = b.
@@ -135,6 +133,7 @@ Section CacheSim.
   Variable cfg : config.
   Variable site_ok : expr -> dict -> bool.
   Variable sites : N -> option expr.      (* the expression cached under each MemoryCache object *)
+  Variable esw : bool.                    (* the value of the effects switch LABREA.EFFECTS.DISABLED along the history *)
 
   Notation evalC := (eval store mem_find mem_store cfg u fuel site_ok).
   Notation validateC := (validate store mem_find mem_store cfg u fuel site_ok).
@@ -163,9 +162,10 @@ Section CacheSim.
     (forall v, resN (evalN b o) = Ok v -> resN (validateN b o) = Ok tt).
   Definition site_clean (b : expr) (o : dict) : Prop :=
     clean_at u fuel b o = true /\ agree_at b o /\
-    forall v, resN (evalN b o) = Ok v -> has_lazy v = false.
+    (forall v, resN (evalN b o) = Ok v -> has_lazy v = false) /\
+    esw_stable u fuel b o.
   Definition okd (o : dict) : Prop :=
-    wf_dict o = true /\ forall c b, sites c = Some b -> site_clean b o.
+    wf_dict o = true /\ effects_opt_off o = esw /\ forall c b, sites c = Some b -> site_clean b o.
 
   (** a correct entry: whoever may be served it would have computed it *)
   Definition Good (b : expr) (f : fp) (v : value) : Prop :=
@@ -419,7 +419,7 @@ Section CacheSim.
   Qed.
 
   (** ** the expressions covered, together with the set [D] of dictionaries that reach them:
-      every constructor except Map, Template nodes, AllOptions and effects; a
+      every constructor except Map, Template nodes and AllOptions; a
       pre-set / default wrapper ([EWith]) hands its sub-expression the overlaid dictionaries; a
       cached expression must be in [frag] (the fragment of the frame theorem), every dictionary
       reaching the cache site must be [okd], and each cache id is used with the one expression
@@ -444,7 +444,8 @@ Section CacheSim.
         (fix go (l : list expr) : Prop := match l with [] => True | x :: l' => scoh x D /\ go l' end) ms
     | EWith force p e => scoh e (fun o' => exists o, D o /\ o' = with_opts force p o)
     | ELogged e => scoh e D
-    | EComp e effs => effs = [] /\ scoh e D
+    | EComp e effs =>
+        scoh e D /\ (fix go (l : list expr) : Prop := match l with [] => True | x :: l' => scoh x D /\ go l' end) effs
     | ECached c e =>
         frag e = true /\ (forall o, D o -> okd o) /\ scoh e D /\
         match c with CMem cid => sites cid = Some e | CNone => True end
@@ -530,7 +531,7 @@ Section CacheSim.
     Proof. apply Sim_bind; [exact K1|]. intros ks. apply Sim_pure, Pure_fingerprint_of. Qed.
 
     Let Hw : wf_dict o = true := proj1 Ho.
-    Let Hcl : site_clean e o := proj2 Ho cid e Hsite.
+    Let Hcl : site_clean e o := proj2 (proj2 Ho) cid e Hsite.
 
     Definition errokE (c : cause) (ee : bool) : Prop := t = Err c true.
 
@@ -539,7 +540,7 @@ Section CacheSim.
       eapply HT_weaken; [|apply (HT_of_Sim errokE pre FPc (FPn e o) HFP)].
       - intros f s0 H. now rewrite <- resN_FPn.
       - intros c ee H. rewrite resN_FPn in H. apply (fingerprintN_err e o c ee Hf Hw) in H.
-        destruct Hcl as (_ & (A1 & _ & _) & _). apply (A1 c ee H).
+        destruct Hcl as (_ & (A1 & _ & _) & _ & _). apply (A1 c ee H).
     Qed.
 
     Lemma L_EV pre : HT errokE pre EV (fun v _ => t = Ok v).
@@ -552,9 +553,10 @@ Section CacheSim.
 
     Lemma good_here f v : fingerprintN u fuel e o = Ok f -> t = Ok v -> Good e f v.
     Proof.
-      intros Hfp Ht o' Ho' Hfp'. destruct Ho' as [Hw' Hs'].
-      destruct (Hs' cid e Hsite) as (Hc' & _). destruct Hcl as (Hc0 & _).
-      unfold resN. rewrite (equal_fingerprint_equal_outcome u fuel e o o' f Hf Hw Hw' Hc0 Hc' Hfp Hfp').
+      intros Hfp Ht o' Ho' Hfp'. destruct Ho' as (Hw' & He' & Hs').
+      destruct (Hs' cid e Hsite) as (Hc' & _ & _ & Hst'). destruct Hcl as (Hc0 & _ & _ & Hst0).
+      assert (Hsw : effects_opt_off o' = effects_opt_off o) by (rewrite He'; symmetry; exact (proj1 (proj2 Ho))).
+      unfold resN. rewrite (equal_fingerprint_equal_outcome u fuel e o o' f Hf Hw Hw' Hc0 Hc' Hst0 Hst' Hsw Hfp Hfp').
       exact Ht.
     Qed.
 
@@ -576,7 +578,7 @@ Section CacheSim.
       eapply HT_bind; [apply L_FP|]. intros f. cbv beta. apply HT_assume. intros Hfp.
       eapply HT_bind.
       { apply (HT_put errokE (fun _ => True) _ (fun _ => True)). intros s Hs _. split; [|exact I].
-        destruct Hcl as (_ & _ & Hlazy). rewrite (exhaust_not_lazy v (Hlazy v Ht)).
+        destruct Hcl as (_ & _ & Hlazy & _). rewrite (exhaust_not_lazy v (Hlazy v Ht)).
         apply (Sound_store cid e f v s Hs Hsite). now apply good_here. }
       intros ?. eapply HT_bind; [apply HT_emit|]. intros ?.
       eapply HT_bind.
@@ -694,14 +696,14 @@ Section CacheSim.
       { unfold Tvalidate.
         eapply HT_bind.
         { apply (HT_of_Sim errokV (fun _ => True) KC (keysN e o) K1).
-          intros c ee H. destruct Hcl as (_ & (_ & A2 & _) & _). apply (A2 c ee H). }
+          intros c ee H. destruct Hcl as (_ & (_ & A2 & _) & _ & _). apply (A2 c ee H). }
         intros ks. cbv beta. apply HT_assume. intros Hk.
         eapply HT_bind; [apply (L_fpof ks Hk)|]. intros f. cbv beta. apply HT_assume. intros Hfp.
         eapply HT_bind; [apply HT_get|]. intros s0. cbv beta.
         intros s Hs [-> _]. destruct (mem_find cid f s) as [v|] eqn:Ef.
         - split; [exact Hs|]. cbn.
           destruct (Hs cid f v Ef) as (b & Hb & Hg0). rewrite Hsite in Hb. inversion Hb; subst b.
-          destruct Hcl as (_ & (_ & _ & A3) & _). exact (A3 v (Hg0 o Ho Hfp)).
+          destruct Hcl as (_ & (_ & _ & A3) & _ & _). exact (A3 v (Hg0 o Ho Hfp)).
         - assert (G2 : HT errokV (fun _ => True)
                     (bind store (emit store (EvCacheExists cid false)) (fun _ => VC)) (fun x _ => tv = Ok x)).
           { eapply HT_bind; [apply HT_emit|]. intros ?.
@@ -1041,17 +1043,21 @@ Section CacheSim.
         apply Sim_bind; [apply Sim_unionM; intros x Hx; apply (HK x Hx o Ho)|]. intros c.
         leaf.
     - (* EComp *)
-      destruct Hc as [-> Ce].
+      destruct Hc as [Ce Cf].
       destruct (IHe D Ce o Ho) as (E1 & V1 & K1 & X1).
+      assert (HA : forall x, In x effects -> SimAll x D).
+      { intros x Hx. rewrite Forall_forall in H. apply (H x Hx D). apply (coh_all_In effects D Cf x Hx). }
       split; [|split; [|split]].
       + unf eval_EComp. apply Sim_wrap. apply Sim_bind; [exact E1|]. intros v.
-        apply Sim_bind; [|intros; leaf]. destruct (effects_opt_off o); [leaf|]. apply Sim_pure, Pure_iterM. intros ? [].
+        apply Sim_bind; [|intros; leaf]. destruct (effects_opt_off o); [leaf|].
+        apply Sim_iterM. intros x Hx. apply Sim_bind; [apply (HA x Hx o Ho)|]. intros f.
+        apply Sim_bind; [apply Sim_pure, Pure_call_value|]. intros; leaf.
       + unf validate_EComp. apply Sim_bind; [exact V1|]. intros _.
-        destruct (effects_opt_off o); [leaf|]. apply Sim_pure, Pure_iterM. intros ? [].
+        destruct (effects_opt_off o); [leaf|]. apply Sim_iterM. intros x Hx. apply (HA x Hx o Ho).
       + unf keys_EComp. exact K1.
       + unf explain_EComp. apply Sim_bind; [exact X1|]. intros a.
         destruct (effects_opt_off o); [leaf|].
-        apply Sim_bind; [|intros; leaf]. apply Sim_pure, Pure_unionM. intros ? [].
+        apply Sim_bind; [|intros; leaf]. apply Sim_unionM. intros x Hx. apply (HA x Hx o Ho).
     - (* ELogged *)
       destruct (IHe D Hc o Ho) as (E1 & V1 & K1 & X1).
       split; [|split; [|split]].
@@ -1131,11 +1137,11 @@ Section CacheSim.
 End CacheSim.
 
 (** the switch configuration and the ghost oracle do not enter any result of a covered history *)
-Corollary history_independent_of_switches u fuel cfg1 cfg2 so1 so2 sites h :
-  hist_ok u fuel sites h ->
+Corollary history_independent_of_switches u fuel cfg1 cfg2 so1 so2 sites esw h :
+  hist_ok u fuel sites esw h ->
   run_hist u fuel cfg1 so1 h [] = run_hist u fuel cfg2 so2 h [].
 Proof.
   intros H.
-  rewrite (history_transparent_from_empty u fuel cfg1 so1 sites h H).
-  now rewrite (history_transparent_from_empty u fuel cfg2 so2 sites h H).
+  rewrite (history_transparent_from_empty u fuel cfg1 so1 sites esw h H).
+  now rewrite (history_transparent_from_empty u fuel cfg2 so2 sites esw h H).
 Qed.
